@@ -39,9 +39,9 @@ class ListenerPool:
         if self.flags.unix_socket_path:
             self.add(UnixSocketListener)
         hostnames = {self.flags.hostname, *self.flags.hostnames}
-        ports = list(self.flags.ports)
-        if not self.flags.unix_socket_path:
-            ports.append(self.flags.port)
+        # Primary port first: Proxy.setup reads it back from the first TCP listener.
+        ports = [] if self.flags.unix_socket_path else [self.flags.port]
+        ports.extend(self.flags.ports)
         for hostname, port in itertools.product(hostnames, ports):
             self.add(TcpSocketListener, hostname=hostname, port=port)
 
